@@ -6,7 +6,7 @@ Traces == TLCGet(3)
 ASSUME TLCSet(4, IF "VMODE" \in DOMAIN IOEnv THEN IOEnv.VMODE ELSE "full")
 Mode == TLCGet(4)
 TN == {"n1", "n2"}
-TA == [n \in TN |-> IF n = "n1" THEN {"a1", "a2"} ELSE {"b1", "b2"}]
+TA == [n \in TN |-> IF n = "n1" THEN {"a1", "a2", "s"} ELSE {"b1", "b2", "s"}]
 VARIABLES tid, l
 ASSUME TLCSet(2, [t \in 1..Len(Traces) |-> 0])
 ToSet(s) == {s[i] : i \in 1..Len(s)}
